@@ -21,6 +21,7 @@ class Cond:
     bounds: str = ""  # human readable bound of this condition
     group: str = ""  # evidence grouping
     per_path_timeout: float = 60.0
+    custom: bool = False  # engine B: fn() runs its own solver loop and returns the worker result dict
     concrete: bool = False  # contract-validation item: fn() is called once, concretely (no solver); labelled as such in evidence
 
 
